@@ -186,6 +186,14 @@ def c15_list(ctx, p):
             region_lines.pop()
         ctx.check(len(segs) == len(region_lines) and b_and(seq_equal(a, b) for a, b in zip(segs, region_lines)),
                   'highlighted text differs from the text of the region', 'highlight-differs-from-region')
+    # ... and these regions are what clean deletes (before tidying): the output is the input minus the regions and blanks
+    out = ctx.impl.clean(src, ds, de, cfg)
+    mask = [False] * len(src)
+    for s_, e_, _ in rr:
+        for k in range(s_, e_):
+            mask[k] = True
+    ctx.check(align([i for i in range(len(src)) if not mask[i]], src, out, lambda i: is_blank(src[i])),
+              'clean does not delete exactly the listed Ready regions', 'clean-deletes-other-than-listed')
     # pure function of source and configuration: asking again gives the same listing
     js2 = ctx.impl.list(src, ds, de, cfg, all=False, format='json')
     ctx.check([(tuple(it['line_range']), it['current_status']) for it in js2['items']] == got and
@@ -240,10 +248,8 @@ def c16_render(ctx, p):
     ja = ctx.impl.list(src, ds, de, cfg, all=True, format='json')
     gotseq = [(tuple(it['line_range']), it['current_status']) for it in ja['items']]
     expseq = [((1 + count_nl(src[:s]), 1 + count_nl(src[:e - 1])), st) for s, e, st in allr]
-    if sorted(gotseq) != sorted(expseq):
-        raise PathAbort()  # which items are listed is C15 / C17's subject; here: how each listed item is rendered
-    if gotseq != expseq:
-        raise PathAbort()  # order is C17's subject
+    if [st for _, st in gotseq] != [st for _, st in expseq]:
+        raise PathAbort()  # which items are listed, and in which order, is C15 / C17's subject; here: how each item is rendered
     pretty = ctx.impl.list(src, ds, de, cfg, all=True, format='pretty')['out']
     exp_pretty = []
     for i, (s, e, st) in enumerate(allr):
@@ -279,6 +285,8 @@ LIST_TPL = {
     'tabs-and-columns': ["f() {\n", H(1, 'ind'), "\tab", H(1, 'ind'), O('m', RX), "\n\t\tq\n\t", H(1, 'ind'), C('m'), "c\n}\n"],
     'inline-two-on-a-line': ["a ", O('m', RX), "x", C('m'), H(1, 'sp'), "b ", O('t', RT), "y\nz", C('t'), " c ", O('m', PN), "w", C('m'), "\nB\n"],
     'skip-and-unregistered': ["A\n", O('m', SK), "\ns\n", C('m'), "\n", O('u'), "\nu\n", C('u'), "\n", H(1, 'ind'), O('m', PN + ' unwrap-block'), "\nonly-one-line\n", C('m'), "\n", O('m', RX), "\nr\n", C('m'), "\nB\n"],
+    'starts-with-tag': [O('m', RX), "\nr", H(1, 'txt'), "\n", C('m'), "\nB\n", O('t', RT), "x", C('t'), O('m', RX), "y", C('m'), H(1, 'txt'), "\n"],
+    'adjacent-inline': ["a", O('m', RX), "x", C('m'), O('t', RT), "y", C('t'), O('m', PN), "p", C('m'), H(1, 'txt'), O('t', RT), "z", C('t'), "\nB\n"],
     'leading-line-break-then-tag': ["\n", H(1, 'ind'), O('m', RX), "\nr\n", C('m'), "\nB", H(1, 'txt'), "\n"],
     'leading-line-break': ["\n", H(1, 'ind'), "A\n", O('m', RX), "\nr\n", C('m'), "\nB\n"],
 }
